@@ -18,6 +18,40 @@ INT_WIDTH = {"bool": 1, "char": 32, "u8": 8, "i8": 8, "u16": 16, "i16": 16, "u32
 CONFIG_PATH_FILES = ("front-end/src/lib.rs", "front-end/src/main.rs", "orchestrator/src/command_line.rs", "orchestrator/src/formatting_orchestrator.rs")
 
 
+def cursor_positions_are_not_narrowed(prog, rep, R):
+    """C15.j — "a cursor inside a token whose text is unchanged is reported at the same offset inside that token": the position of a
+    cursor inside its token (distance to the next line break, number of line breaks behind it, column in the blanks) is kept in
+    fields at least as wide as the cursor itself (u32).  In the cursor code of the reconstructor no byte count or line count is
+    narrowed below 32 bits: a 16-bit field wraps for a comment line of 65536 bytes and moves the cursor by that much."""
+    REC = "pasfmt_core::defaults::reconstructor::"
+    n, bad = 0, []
+    for b in prog.bodies.values():
+        if not (b.npath.startswith(REC) or b.npath.startswith("<" + REC)) or ("process_cursors" not in b.npath and "relocate_cursors" not in b.npath):
+            continue
+        for bb, i, s2 in b.stmts():
+            if s2["k"] != "assign" or s2["rv"]["k"] != "cast" or "IntToInt" not in str(s2["rv"].get("cast")):
+                continue
+            dst = str(s2["rv"].get("ty"))
+            op = s2["rv"]["op"]
+            src = str(op.get("ty")) if op["k"] == "const" else str(b.local_ty(op["place"]["l"]) if not op["place"]["p"] else "?")
+            ws, wd = INT_WIDTH.get(src), INT_WIDTH.get(dst)
+            if ws is None or wd is None:
+                continue
+            n += 1
+            if wd < 32 and wd < ws:
+                bad.append("%s:%s `%s as %s`" % (short(b.npath), abs(s2.get("line", 0)), src, dst))
+    info = prog.adts.get(REC + "TokPos")
+    narrow = []
+    for v in (info or {}).get("variants", []):
+        for f in v.get("fields", []):
+            if str(f.get("ty")) in ("u16", "u8", "i16", "i8"):
+                narrow.append("%s.%s: %s" % (v["name"], f.get("name"), f.get("ty")))
+    rep.check(not bad and not narrow, R, "cursor-positions-at-least-32-bits",
+              "the position of a cursor inside its token is narrowed below 32 bits (%s): a line of 65536 bytes (or that many lines) in a comment or string moves the reported cursor by 65536 bytes inside "
+              "a token whose text did not change" % (bad + narrow)[:3], instance={"int_casts": n, "narrowing": (bad + narrow)[:5]})
+    rep.floor(R, "integer casts in the cursor code", n, 3)
+
+
 def config_values_are_not_narrowed(prog, rep, R):
     """C19.f — an ill-typed (out-of-range) value is rejected, not wrapped: on the way from the option sources to the pipeline (front-end
     crate, the orchestrator's command-line and configuration code) no integer is narrowed with `as` (a u32 read for a u8 option and
@@ -554,6 +588,7 @@ def check_c15(prog, rep, tier, cfg):
     cursor_offsets_reach_the_core_unmodified(prog, rep, "C15.g")
     cursors_in_changed_text_are_snapped(prog, rep, "C15.h")
     measurer_consults_what_decides_the_emission(prog, rep, "C15.i")
+    cursor_positions_are_not_narrowed(prog, rep, "C15.j")
 
 
 CURSOR_COLLECTION_OPS = {
